@@ -744,7 +744,8 @@ class UnionT(Node):
                 if hit:
                     if any(type(m) is type(x) for m in hit):
                         return c
-                    return None   # ==-look-alike of a literal member that belongs to another case: unspecified
+                    # ==-look-alike of a literal member (Decimal(200) next to Literal[200]): "finds appropriate dumper using object
+                    # type" - it belongs to the case of its class; with no such case nothing is documented (None below)
         by_origin = {}
         for c in self.children:
             if c.class_origin is not None and c.kind != "Literal":
